@@ -25,11 +25,14 @@ fn deserialize_env(s: &str) -> Result<HashMap<String, String>, String> {
 }
 
 fn serialize_env(env: &HashMap<String, String>) -> String {
-    let mut s = String::new();
-    for (key, value) in env {
-        s.push_str(&format!("{}={}\n", key, value));
-    }
-    s
+    // One entry per line, without a trailing newline (which would print as
+    // a blank line and end the paragraph), in a stable order.
+    let mut entries = env
+        .iter()
+        .map(|(key, value)| format!("{}={}", key, value))
+        .collect::<Vec<_>>();
+    entries.sort();
+    entries.join("\n")
 }
 
 fn deserialize_version(s: &str) -> Result<debversion::Version, String> {
